@@ -496,7 +496,19 @@ fn shrink_tab_vec(s: &TabScenario) -> Vec<TabScenario> {
         out.push(TabScenario { interner_ops: s.interner_ops[h..].to_vec(), ..s.clone() });
     }
     for i in 0..s.interner_ops.len() {
-        out.push(TabScenario { interner_ops: without(&s.interner_ops, i), ..s.clone() });
+        // faults are addressed by operation index: shift them along
+        let faults = s
+            .interner_faults
+            .iter()
+            .filter(|f| f.0 as usize != i)
+            .map(|f| if f.0 as usize > i { (f.0 - 1, f.1) } else { *f })
+            .collect();
+        out.push(TabScenario { interner_ops: without(&s.interner_ops, i), interner_faults: faults, ..s.clone() });
+    }
+    for i in 0..s.interner_faults.len() {
+        if s.interner_faults.len() > 1 {
+            out.push(TabScenario { interner_faults: without(&s.interner_faults, i), ..s.clone() });
+        }
     }
     for i in 0..s.pool.len() {
         for t in shrink_ptype(&s.pool[i]) {
@@ -580,8 +592,15 @@ fn shrink_wire(s: &WireScenario, try_it: &mut dyn FnMut(WireScenario) -> bool) -
     }
     if s.frames.len() > 1 {
         for i in 0..s.frames.len() {
-            offer!(WireScenario { frames: vec![s.frames[i].clone()], ..s.clone() });
+            offer!(WireScenario {
+                frames: vec![s.frames[i].clone()],
+                keeps: s.keeps.get(i).cloned().into_iter().collect(),
+                ..s.clone()
+            });
         }
+    }
+    if !s.keeps.is_empty() {
+        offer!(WireScenario { keeps: vec![], ..s.clone() });
     }
     if !s.sentinel.is_empty() {
         offer!(WireScenario { sentinel: vec![], ..s.clone() });
